@@ -91,6 +91,8 @@ class WorldTrack:
         self.created = defaultdict(list)
         self.destroyed = defaultdict(list)
         self.unknown_destroy = False
+        self.var_live = {}    # create-variable -> words   (identity of the entity, not of its bits)
+        self.var_dead = {}
 
     def by_token(self, toks):
         for words, (a, row) in self.live.items():
@@ -103,11 +105,17 @@ class WorldTrack:
         del self.live[words]
         self.dead.add(words)
         self.destroyed[a].append(words)
+        for v, wd in list(self.var_live.items()):
+            if wd == words:
+                del self.var_live[v]
+                self.var_dead[v] = wd
 
     def clone(self, tokmap=None):
         w = WorldTrack(0)
         w.live = {k: (a, [tokmap.get(t, t) for t in row] if tokmap else list(row)) for k, (a, row) in self.live.items()}
         w.unknown_destroy = self.unknown_destroy
+        w.var_live = dict(self.var_live)
+        w.var_dead = dict(self.var_dead)
         w.issued = list(self.issued)
         w.dead = set(self.dead)
         w.caps = self.caps
@@ -204,7 +212,11 @@ def check_seq(seq, stats):
                 k = int(words.split(".")[0])
                 if (k & 0xff) != ids[a]:
                     hits.append(hit("C14", seq, no, raw, "archetype_id of created handle differs from ARCHETYPE_ID", "create-id"))
+                for v, wd in list(w.var_live.items()):
+                    if wd == words:          # the same bits issued again while believed alive: keep both views
+                        pass
                 w.live[words] = (a, [t.split(":")[0] for t in op[4:]])
+                w.var_live[var] = words
                 hvars[var] = ("e", words, a, False)
                 w.created[a].append(words)
                 if before and after:
@@ -233,6 +245,10 @@ def check_seq(seq, stats):
             var = op[3]
             hv = hvars.get(var)
             tainted = wrapping and preset_used
+            if obs.startswith("panic Injected") and "drops=" in obs:
+                # a component's Drop panicked while the destroyed tuple was being dropped: the
+                # entity had already been removed (all its components are in the drop list)
+                obs = "some" + obs[len("panic Injected"):]
             if hv is None and obs.startswith("some"):
                 hv = ("d", "?", None, False)   # a direct handle saved from a query closure
             if hv and obs.startswith("some"):
@@ -315,6 +331,15 @@ def check_seq(seq, stats):
                 words, static, mismatch = hv[1], hv[2], hv[3]
                 key_id = int(words.split(".")[0]) & 0xff
                 alive = words in w.live
+                if op[1] in w.var_dead and not (wrapping and preset_used):
+                    # the entity this variable was created for has been destroyed: whatever now carries
+                    # the same bits is ANOTHER entity, and accepting the old handle is the C01 violation
+                    for name in ACCEPT_FIELDS_T + ACCEPT_FIELDS_Y:
+                        v = f.get(name)
+                        if v is not None and accepted(name, v) and not (name.startswith("t") and mismatch):
+                            hits.append(hit("C01", seq, no, raw, f"handle {words} of a destroyed entity (variable {op[1]}) is accepted by {name}={v[:60]}", "stale-accepted"))
+                            break
+                    continue
                 tainted = wrapping and preset_used
                 for name in ACCEPT_FIELDS_T + ACCEPT_FIELDS_Y:
                     if name not in f or tainted:
@@ -445,7 +470,9 @@ def check_iterd(seq, no, op, obs, raw, w, archs, ids):
             ent = w.by_token(toks)
         visited.append(ent)
         d = dec[i] if i < len(dec) else "c"
-        last_panicking = panicked and i == len(calls) - 1 and "Injected" in m.group(3)
+        # the call at which the loop panicked removed nothing: either the closure did not return
+        # (injected fault) or the destroy itself panicked before touching anything (overflow)
+        last_panicking = panicked and i == len(calls) - 1
         if ent is not None:
             if ent not in w.live and not w.unknown_destroy:
                 hits.append(hit("C07", seq, no, raw, f"closure ran for {ent}, which was not alive when the loop started", "visit-dead"))
